@@ -425,16 +425,27 @@ func init() {
 			if tier == "thorough" {
 				bp["b64max"] = "13"
 			}
-			return []*Job{
+			jobs := []*Job{
 				{Name: "redactString-decrypt", Harness: "H_c09", Lines: map[string]*Template{}, Params: map[string]string{}},
 				{Name: "base64-roundtrip", Harness: "H_c09_b64", Lines: map[string]*Template{}, Params: bp},
 			}
+			// the round trip at line level (what reaches redactString is the literal itself, whatever
+			// its class: e-mail shaped, $date / $oid / $binary payload, array element, pipeline literal)
+			want := map[string]bool{"find.filter/field/str": true, "find.filter/in/date": true, "update.updates.u/set/str": true, "stage:project/lit/str": true, "insert.documents/doc2/oid": true, "find.filter/field/bin": true}
+			for _, sp := range buildCorpus() {
+				if want[sp.Name] {
+					tpl, _ := ParseTemplate("L0", sp.Text)
+					jobs = append(jobs, &Job{Name: sp.Name + "~line", Harness: "H_c10", Lines: map[string]*Template{"L0": tpl}, Params: map[string]string{"nonEmpty": "yes"}})
+				}
+			}
+			return jobs
 		},
 		Functions: []string{"redactString", "Encrypt", "Decrypt", "keysetHandleFromRawKey", "ReadKeyFromFile"},
 		Witness:   []string{"emitted"},
 		Bounds: map[string]any{
 			"plaintext": "arbitrary string of any length (SMT string), arbitrary 64-byte key",
 			"path":      "redactString (the single choke point of encrypt mode) -> key file content as WriteKeyToFile stores it -> ReadKeyFromFile -> base64 decode -> Decrypt, i.e. the steps of the decrypt command",
+			"lines":     "6 representative command lines run in placeholder and encrypt mode (harness of C10): every replaced string leaf decrypts to the input leaf",
 			"base64":    "real stdlib code on symbolic bytes, lengths 0..6 (thorough: 0..13, which reaches the decoder's 8- and 4-character fast paths)",
 			"outside":   "'a different key or an altered ciphertext fails': authenticity of AES-SIV is a cryptographic (probabilistic) claim, not decidable here; the cobra wiring of the decrypt command; key file with trailing newline",
 		},
